@@ -78,9 +78,9 @@ def parseTars (segs : List Seg) (s : String) : List (Bytes × Option (List Entry
     | _ => none
 
 def mkGz (segs : List Seg) (tars : List (Bytes × Option (List Entry))) : Gz :=
-  { member := fun bs => segs.findSome? fun
-      | .member c d _ => if c.isPrefixOf bs then some (c.length, d) else none
-      | .garbage _ => none,
+  { member := tableMember (segs.filterMap fun
+      | .member c d _ => some (c, d)
+      | .garbage _ => none),
     firstName := fun d => segs.findSome? fun
       | .member _ d' f => if d' = d then f else none
       | .garbage _ => none,
